@@ -819,6 +819,40 @@ def gen_sequencer(repo, f=lstrlit):
     out.append("end Mingus.Gen.Sequencer")
     return "\n".join(out) + "\n"
 
+# ---------------------------------------------------------------- exporters (C19)
+LY_FUNCS = ["from_Note", "from_NoteContainer", "from_Bar", "from_Track", "from_Composition"]
+XML_FUNCS = ["_gcd", "_lcm", "_quarter_length", "_note2musicxml", "_bar2musicxml", "_track2musicxml", "_composition2musicxml",
+             "from_Bar", "from_Track", "from_Composition"]
+
+def func_table(tree, names, f):
+    rows = []
+    for w in names:
+        fn = func(tree, w)
+        rows.append("(%s, %s)" % (f(w + "(" + ast.unparse(fn.args) + ")"), llist(f(ast.unparse(x)) for x in body_wo_doc(fn))))
+    return llist(rows)
+
+def gen_export(repo, f=lstrlit):
+    ly = parse(repo, "mingus/extra/lilypond.py")
+    mx = parse(repo, "mingus/extra/musicxml.py")
+    vt = parse(repo, "mingus/core/value.py")
+    names = lit(module_assign(vt, "musicxml"))
+    it = parse(repo, "mingus/containers/instrument.py")
+    ic = cls(it, "Instrument")
+    clef = None
+    for n in ic.body:
+        if isinstance(n, ast.Assign) and getattr(n.targets[0], "id", None) == "clef":
+            clef = lit(n.value)
+    if clef is None:
+        raise Shape("Instrument.clef not found")
+    out = ["import Mingus.Model.Basic", "namespace Mingus.Gen.Export", "open Mingus"]
+    out.append("def lilypondSources : List (List Char × List (List Char)) := " + func_table(ly, LY_FUNCS, f))
+    out.append("def musicxmlSources : List (List Char × List (List Char)) := " + func_table(mx, XML_FUNCS, f))
+    out.append("def typeNames : List (Nat × List Char) := " + llist("(%d, %s)" % (k, f(v)) for k, v in sorted(names.items())))
+    out.append("def longaBreve : List Rat := " + llist(lrat(lit(module_assign(vt, k))) for k in ("longa", "breve")))
+    out.append("def instrumentClef : List Char := " + f(clef))
+    out.append("end Mingus.Gen.Export")
+    return "\n".join(out) + "\n"
+
 GENERATORS = {
     "Notes": gen_notes,
     "Keys": gen_keys,
@@ -834,6 +868,7 @@ GENERATORS = {
     "Classes": gen_classes,
     "Midi": gen_midi,
     "Sequencer": gen_sequencer,
+    "Export": gen_export,
 }
 
 def main():
